@@ -81,6 +81,8 @@ struct Inner {
     fired: BTreeMap<String, u64>,
     dials: Vec<(u64, usize, SocketAddr, Option<usize>, bool)>, // (t, from, addr, resolved target, ok)
     seq: u64,
+    /// scenario-specific fate chooser for frames sent by real nodes: "drop" | "dup" | "late" | "delay"
+    filter: Option<Arc<dyn Fn(&Frame) -> Option<String> + Send + Sync>>,
 }
 
 pub struct SimNetwork {
@@ -107,6 +109,7 @@ impl SimNetwork {
                 fired: BTreeMap::new(),
                 dials: Vec::new(),
                 seq: 0,
+                filter: None,
             }),
             seed,
             t0: tokio::time::Instant::now(),
@@ -177,6 +180,9 @@ impl SimNetwork {
         g.faults.dial = dial;
         g.faults.on_message = on_message;
         g.link_counter.clear();
+    }
+    pub fn set_filter(&self, f: Arc<dyn Fn(&Frame) -> Option<String> + Send + Sync>) {
+        self.inner.lock().unwrap().filter = Some(f);
     }
     pub fn connected(&self, a: usize, b: usize) -> bool {
         let g = self.inner.lock().unwrap();
@@ -333,7 +339,13 @@ impl SimNet for SimNetwork {
             g.seq += 1;
             let (protocol, dht, rr) = decode(&frame);
             let connected = g.conns.contains(&(from_idx.min(to_idx), from_idx.max(to_idx)));
-            let fault = g.faults.on_message.get(&(from_idx, to_idx, n)).cloned();
+            let mut fault = g.faults.on_message.get(&(from_idx, to_idx, n)).cloned();
+            if fault.is_none() {
+                if let Some(f) = g.filter.clone() {
+                    let probe = Frame { seq, t_ms: now, from: from_idx, to: to_idx, protocol: protocol.clone(), dht: dht.clone(), rr: rr.clone(), len: frame.len(), fate: Fate::Delivered, deliver_ms: now };
+                    fault = f(&probe);
+                }
+            }
             let mut fate = Fate::Delivered;
             let mut extra = 0u64;
             let mut dup = false;
